@@ -73,6 +73,8 @@ fn has_errors(cst: &Cst<'_>, source: &str, root: NodeRef) -> Result<(), Error> {
 
 #[allow(clippy::too_many_lines)]
 fn parse_rule(cst: &Cst<'_>, node_ref: NodeRef, source: &str) -> Result<Value, Error> {
+    #[cfg(feature = "verif_hooks")]
+    crate::verif_hooks::bump(1);
     match cst.get(node_ref) {
         Node::Rule(Rule::Literal, ..) => {
             has_errors(cst, source, node_ref)?;
